@@ -12,7 +12,19 @@ Correspondence (H1, direct calls of the real functions of $QMI_REPO):
     config_struct_from_dict / config_struct_to_dict; compared with the Coq `parse` / `to_data`:
     result object shape (tuple vs list, int vs float vs bool, structure vs dict), the data it
     converts back to, or the error kind and item path.
+  * class definitions: generated @configstruct classes with 0-2 annotations outside the accepted
+    grammar injected at random depth (Set[int], int | None, list[int], bytes, multi-member Union,
+    Dict[int, T], builtin tuple, ...) -> _check_config_struct_type (and config_struct_from_dict, which
+    must refuse the class before looking at data); _parse_config_value called directly on the same
+    annotations (what the generated constructor does without the check) -> Coq `check` / `parse_ann`.
+  * explicit bucket: U+2028 U+2029 U+0085 VT FF FS GS RS inside comments, inside strings and in junk
+    lines (str.splitlines() would split there; the configuration language does not).
+  * files (oracle only): dump_config_file / load_config_file through a scratch file: read back equal,
+    overwrite replaces, refused dump leaves the file alone, file with comments loads to its data.
 Independent oracles restate C16 on the implementation's observations (see oracle_* below).
+
+Helpers kept here rather than in common.py: cstr (string-literal encoding of text in case terms),
+shuffling of the case order before ck.run_model (spreads large cases over the shards).
 """
 import copy
 import dataclasses
@@ -46,7 +58,43 @@ def frepr(x):
 
 
 def cstr(s):
-    return ccodepoints(s)
+    """str -> Coq term of type list N; runs of printable ASCII become string literals (much cheaper
+    for coqc to read than lists of numbers)"""
+    parts, i, n = [], 0, len(s)
+    while i < n:
+        j = i
+        while j < n and 32 <= ord(s[j]) <= 126:
+            j += 1
+        if j - i >= 3:
+            parts.append('ss "%s"%%string' % s[i:j].replace('"', '""'))
+            i = j
+            continue
+        j = i
+        run = 0
+        while j < n:
+            if 32 <= ord(s[j]) <= 126:
+                run += 1
+                if run >= 3 and all(32 <= ord(c) <= 126 for c in s[j - 2:j + 1]):
+                    # a literal-worthy run starts at j-2
+                    k = j - 2
+                    while j < n and 32 <= ord(s[j]) <= 126:
+                        j += 1
+                    if k > i:
+                        parts.append(ccodepoints(s[i:k]))
+                    parts.append('ss "%s"%%string' % s[k:j].replace('"', '""'))
+                    i = j
+                    break
+            else:
+                run = 0
+            j += 1
+        else:
+            parts.append(ccodepoints(s[i:n]))
+            i = n
+    if not parts:
+        return "[]%N"
+    if len(parts) == 1:
+        return parts[0] if parts[0].startswith("[") else "(%s)" % parts[0]
+    return "(%s)" % " ++ ".join(parts)
 
 
 def cj(v):
@@ -137,7 +185,43 @@ def pytype(t):
         return typing.Tuple[tuple(pytype(x) for x in t[1])]
     if k == "struct":
         return struct_class(t)
+    if k == "rawlist":
+        return typing.List if t[1] == "typing" else list
+    if k == "rawdict":
+        return typing.Dict if t[1] == "typing" else dict
+    if k == "rawtuple":
+        return typing.Tuple
+    if k == "rawtupleb":
+        return tuple
+    if k == "other":
+        return OTHER_ANNOTATIONS[t[1]]()
+    if k == "union":
+        return typing.Union[tuple([pytype(x) for x in t[1]] + ([type(None)] if t[2] else []))]
+    if k == "dictk":
+        return typing.Dict[DICT_KEYS[t[1]], pytype(t[2])]
     raise ValueError(t)
+
+
+# annotations that neither _check_config_struct_type nor _parse_config_value recognises
+OTHER_ANNOTATIONS = {
+    "Set[int]": lambda: typing.Set[int],
+    "FrozenSet[str]": lambda: typing.FrozenSet[str],
+    "int | None": lambda: int | None,
+    "str | int": lambda: str | int,
+    "list[int]": lambda: list[int],
+    "dict[str, int]": lambda: dict[str, int],
+    "tuple[int, int]": lambda: tuple[int, int],
+    "bytes": lambda: bytes,
+    "complex": lambda: complex,
+    "object": lambda: object,
+    "Sequence[int]": lambda: typing.Sequence[int],
+    "Set[List[int]]": lambda: typing.Set[typing.List[int]],
+    "Mapping[str, int]": lambda: typing.Mapping[str, int],
+    "Type[int]": lambda: typing.Type[int],
+    "float | None": lambda: float | None,
+}
+_union_order = {}
+DICT_KEYS = {"int": int, "bytes": bytes, "Any": typing.Any, "float": float}
 
 
 def struct_class(t):
@@ -177,8 +261,10 @@ def build_value(t, d):
         return None if d is None else build_value(t[1], d)
     if k == "float":
         return float(d)
-    if k in ("int", "str", "bool", "any"):
+    if k in ("int", "str", "bool", "any", "rawlist", "rawdict"):
         return copy.deepcopy(d)
+    if k == "rawtuple":
+        return tuple(copy.deepcopy(d))
     if k == "list":
         return [build_value(t[1], x) for x in d]
     if k == "vtuple":
@@ -197,6 +283,8 @@ def cty(t):
     k = t[0]
     if k in SCALARS:
         return "T" + k.capitalize()
+    if k in ("rawlist", "rawdict", "rawtuple"):
+        return {"rawlist": "TRawList", "rawdict": "TRawDict", "rawtuple": "TRawTuple"}[k]
     if k == "opt":
         return "(TOpt %s)" % cty(t[1])
     if k == "list":
@@ -216,6 +304,39 @@ def cty(t):
             dv = "None" if dflt is None else "(Some %s)" % canon(default_object(t, fname))
             s = "(FCons %s %s %s %s)" % (cstr(fname), cty(ft), dv, s)
         return "(TStruct %s)" % s
+    raise ValueError(t)
+
+
+def cann(t):
+    """type term (any annotation) -> Coq term of type ann"""
+    k = t[0]
+    if k in SCALARS:
+        return "A" + k.capitalize()
+    if k in ("rawlist", "rawdict", "rawtuple", "rawtupleb"):
+        return "(ARaw %s)" % {"rawlist": "RList", "rawdict": "RDict", "rawtuple": "RTuple", "rawtupleb": "RTupleB"}[k]
+    if k == "other":
+        return "AOther"
+    if k == "opt":
+        return "(AOpt %s)" % cann(t[1])
+    if k == "list":
+        return "(AList %s)" % cann(t[1])
+    if k == "dict":
+        return "(ADict true %s)" % cann(t[1])
+    if k == "dictk":
+        return "(ADict false %s)" % cann(t[2])
+    if k == "vtuple":
+        return "(AVarTuple %s)" % cann(t[1])
+    if k in ("tuple", "union"):
+        s = "ANil"
+        for x in reversed(t[1]):
+            s = "(ACons %s %s)" % (cann(x), s)
+        return "(ATuple %s)" % s if k == "tuple" else "(AUnion %s %s)" % (s, cbool(t[2]))
+    if k == "struct":
+        s = "AFNil"
+        for fname, ft, dflt in reversed(t[2]):
+            dv = "None" if dflt is None else "(Some %s)" % canon(default_object(t, fname))
+            s = "(AFCons %s %s %s %s)" % (cstr(fname), cann(ft), dv, s)
+        return "(AStruct %s)" % s
     raise ValueError(t)
 
 
@@ -326,6 +447,9 @@ class TypeGen:
 
     def ty(self, depth):
         rng = self.rng
+        if rng.random() < 0.07:
+            k = rng.choice(["rawlist", "rawdict", "rawtuple"])
+            return [k] if k == "rawtuple" else [k, rng.choice(["typing", "builtin"])]
         if depth <= 0 or rng.random() < 0.35:
             return [rng.choice(SCALARS)]
         k = rng.choice(["opt", "opt", "list", "dict", "vtuple", "tuple", "tuple", "struct", "struct"])
@@ -335,7 +459,7 @@ class TypeGen:
                 if inner[0] != "opt":      # typing flattens Optional[Optional[T]]
                     return ["opt", inner]
         if k == "tuple":
-            return ["tuple", [self.ty(depth - 1) for _ in range(rng.choice([1, 2, 2, 3]))]]
+            return ["tuple", [self.ty(depth - 1) for _ in range(rng.choice([0, 1, 2, 2, 2, 3]))]]
         if k == "struct":
             return self.struct(depth)
         return [k, self.ty(depth - 1)]
@@ -371,8 +495,16 @@ def gen_data(rng, t, for_default=False):
         return gen_string(rng)
     if k == "bool":
         return rng.choice([True, False])
-    if k == "any":
+    if k in ("any", "other"):
         return gen_plain(rng, 2)
+    if k in ("rawlist", "rawtuple", "rawtupleb"):
+        return [gen_plain(rng, 1) for _ in range(rng.choice([0, 1, 2, 3]))]
+    if k == "rawdict":
+        return {gen_string(rng): gen_plain(rng, 1) for _ in range(rng.choice([0, 1, 2]))}
+    if k == "union":
+        return gen_data(rng, rng.choice(t[1]), for_default)
+    if k == "dictk":
+        return gen_data(rng, ["dict", t[2]], for_default)
     if k == "opt":
         return None if rng.random() < 0.3 else gen_data(rng, t[1], for_default)
     if k in ("list", "vtuple"):
@@ -395,8 +527,18 @@ def gen_data(rng, t, for_default=False):
     raise ValueError(t)
 
 
+def _norm(t):
+    """dictk parses like dict; a multi-member Union parses like its last member (Optional if None is in it)"""
+    if t[0] == "dictk":
+        return ["dict", t[2]]
+    if t[0] == "union":
+        return ["opt", t[1][-1]] if t[2] else _norm(t[1][-1])
+    return t
+
+
 def positions(t, d, pre, out):
     """all items of d that have a declared type: (path, declared type, container, key)"""
+    t = _norm(t)
     k = t[0]
     if k == "opt":
         if d is not None:
@@ -423,6 +565,7 @@ def positions(t, d, pre, out):
 
 def struct_positions(t, d, pre, out):
     """all (path, struct type, data dict) pairs"""
+    t = _norm(t)
     k = t[0]
     if k == "opt":
         if d is not None:
@@ -446,6 +589,7 @@ def struct_positions(t, d, pre, out):
 def all_paths(t, d, pre, out):
     """every item path the parser could name for (t, d)"""
     out.append(pre)
+    t = _norm(t)
     k = t[0]
     if k == "opt":
         if d is not None:
@@ -498,6 +642,9 @@ SURELY_BAD = {
     "tuple": {"null", "bool", "int", "float", "str", "dict"},
     "dict": {"null", "bool", "int", "float", "str", "list"},
     "struct": {"null", "bool", "int", "float", "str", "list"},
+    "rawlist": {"null", "bool", "int", "float", "str", "dict"},
+    "rawtuple": {"null", "bool", "int", "float", "str", "dict"},
+    "rawdict": {"null", "bool", "int", "float", "str", "list"},
 }
 WRONG = [5, 0, 3.5, True, False, None, "s", "ab", "", [], [1], [1, 2], ["a", "b"], {}, {"a": 1}, {"a": 1, "b": 2},
          2 ** 2000, -10 ** 400, 1e308]
@@ -548,7 +695,7 @@ def mutate(rng, t, d):
         base = strip_opt(ft)
         if ft[0] == "opt" and v is None:
             return d, None
-        if base[0] != "any" and jkind(v) in SURELY_BAD[base[0]]:
+        if base[0] != "any" and jkind(v) in SURELY_BAD.get(base[0], ()):
             return d, ("Mismatch", pre)
         return d, None
     return d, None
@@ -556,6 +703,191 @@ def mutate(rng, t, d):
 
 def strip_opt(t):
     return t[1] if t[0] == "opt" else t
+
+
+# ---- annotations outside the accepted grammar --------------------------------------------------
+def gen_unsupported(rng, tg, depth):
+    k = rng.choice(["other", "other", "union", "union", "dictk", "rawtupleb"])
+    if k == "other":
+        return ["other", rng.choice(sorted(OTHER_ANNOTATIONS))]
+    if k == "rawtupleb":
+        return ["rawtupleb"]
+    if k == "dictk":
+        return ["dictk", rng.choice(sorted(DICT_KEYS)), tg.ty(max(0, depth - 1))]
+    while True:
+        ms = [tg.ty(max(0, depth - 1)) for _ in range(rng.choice([2, 2, 3]))]
+        if any(m[0] == "opt" for m in ms):
+            continue
+        hn = rng.random() < 0.4
+        # typing caches Union[...] objects and treats Unions with the same members in another order as
+        # equal: the member order of the object that comes back (hence "the last member") is that of
+        # the first such Union built in the process.  Keep one order per member set for the whole run.
+        key = (frozenset(json.dumps(m, sort_keys=True) for m in ms), hn)
+        ms = _union_order.setdefault(key, ms)
+        u = pytype(["union", ms, hn])
+        if typing.get_origin(u) is typing.Union and len(typing.get_args(u)) == len(ms) + (1 if hn else 0) \
+                and [a for a in typing.get_args(u) if a is not type(None)] == [pytype(m) for m in ms]:
+            return ["union", copy.deepcopy(ms), hn]
+
+
+def sub_nodes(t, route, out):
+    """(definition path, parent list, index) of every annotation below t"""
+    k = t[0]
+    if k == "opt":
+        out.append((route, t, 1))
+        sub_nodes(t[1], route, out)
+    elif k in ("list", "dict", "vtuple"):
+        out.append((route + [("any",)], t, 1))
+        sub_nodes(t[1], route + [("any",)], out)
+    elif k == "tuple":
+        for i, x in enumerate(t[1]):
+            out.append((route + [("i", i)], t[1], i))
+            sub_nodes(x, route + [("i", i)], out)
+    elif k == "struct":
+        for f in t[2]:
+            out.append((route + [("f", f[0])], f, 1))
+            sub_nodes(f[1], route + [("f", f[0])], out)
+
+
+def contains_unsupported(t):
+    k = t[0]
+    if k in ("other", "union", "dictk", "rawtupleb"):
+        return True
+    if k in ("opt", "list", "dict", "vtuple"):
+        return contains_unsupported(t[1])
+    if k == "tuple":
+        return any(contains_unsupported(x) for x in t[1])
+    if k == "struct":
+        return any(contains_unsupported(f[1]) for f in t[2])
+    return False
+
+
+def strip_defaults(t):
+    """a field whose annotation contains an unsupported part gets no default (its default could not
+    be built through the constructor)"""
+    k = t[0]
+    if k in ("opt", "list", "dict", "vtuple"):
+        strip_defaults(t[1])
+    elif k == "tuple":
+        for x in t[1]:
+            strip_defaults(x)
+    elif k == "dictk":
+        strip_defaults(t[2])
+    elif k == "union":
+        for x in t[1]:
+            strip_defaults(x)
+    elif k == "struct":
+        for f in t[2]:
+            strip_defaults(f[1])
+            if contains_unsupported(f[1]):
+                f[2] = None
+
+
+def inject_unsupported(rng, tg, t, n):
+    """replace n random sub-annotations of struct type t; returns (type, [(definition path, kind)])"""
+    t = copy.deepcopy(t)
+    done = []
+    for _ in range(n):
+        nodes = []
+        sub_nodes(t, [], nodes)
+        nodes = [x for x in nodes if not (x[1][0] == "opt" and False)]
+        if not nodes:
+            break
+        route, parent, idx = rng.choice(nodes)
+        if parent[0] == "opt":
+            u = gen_unsupported(rng, tg, 1)
+            # typing merges Optional[Union[...]] and Optional[X | Y] into one Union
+            while u[0] == "union" or (u[0] == "other" and " | " in u[1]):
+                u = gen_unsupported(rng, tg, 1)
+        else:
+            u = gen_unsupported(rng, tg, 1)
+            # `X | Y` as a parameter of a typing generic is looked up in typing's alias cache, where it
+            # compares equal to typing.Union[X, Y]: which object comes back depends on what was built
+            # before in the process.  Only use it as a direct field annotation.
+            while u[0] == "other" and " | " in u[1] and not (route and route[-1][0] == "f"):
+                u = gen_unsupported(rng, tg, 1)
+        parent[idx] = u
+        done.append((route, {"other": "CType", "rawtupleb": "CType", "union": "CUnion", "dictk": "CNonStrKey"}[u[0]]))
+    strip_defaults(t)
+    return t, done
+
+
+def render_cpath(route):
+    return ".".join("[]" if e[0] == "any" else "[%d]" % e[1] if e[0] == "i" else e[1] for e in route)
+
+
+CHECK_MSGS = [("CUnion", "Unsupported Union type in configuration field "),
+              ("CNonStrKey", "Unsupported non-string-key dictionary type in configuration field "),
+              ("CType", "Unsupported data type in configuration field ")]
+
+
+def impl_check(t):
+    from qmi.core.config_struct import _check_config_struct_type
+    from qmi.core.exceptions import QMI_ConfigurationException
+    try:
+        _check_config_struct_type(pytype(t), [])
+        return ("ok",)
+    except QMI_ConfigurationException as e:
+        return ("cfgerr", str(e))
+    except Exception as e:  # noqa
+        return ("exc", type(e).__name__, str(e))
+
+
+def check_case_term(t, obs):
+    o = "CoOther"
+    if obs[0] == "ok":
+        o = "CoOk"
+    elif obs[0] == "cfgerr":
+        for kind, pre in CHECK_MSGS:
+            if obs[1].startswith(pre):
+                elems = []
+                rest = obs[1][len(pre):]
+                for part in (rest.split(".") if rest else []):
+                    if part == "[]":
+                        elems.append("CAny")
+                    elif re.fullmatch(r"\[\d+\]", part):
+                        elems.append("CIdx %s" % cnat(int(part[1:-1])))
+                    else:
+                        elems.append("CField %s" % cstr(part))
+                o = "(CoErr %s %s)" % (kind, clist(elems))
+    return "(CCheck %s %s)" % (cann(t), o)
+
+
+def impl_parse_value(t, data):
+    """_parse_config_value(data, annotation, []) directly — what the generated constructor does,
+    without the class check"""
+    from qmi.core.config_struct import _parse_config_value, _inner_config_struct_to_dict
+    from qmi.core.exceptions import QMI_ConfigurationException
+    try:
+        r = _parse_config_value(copy.deepcopy(data), pytype(t), [])
+    except QMI_ConfigurationException as e:
+        return ("cfgerr", str(e))
+    except Exception as e:  # noqa
+        return ("exc", type(e).__name__, str(e))
+    try:
+        return ("ok", canon(r), _inner_config_struct_to_dict(r), r)
+    except Exception as e:  # noqa
+        return ("exc", "to_dict:" + type(e).__name__, str(e))
+
+
+def parse_ann_case_term(t, data, obs):
+    amb = False
+    if obs[0] == "ok":
+        o = "(PoOk %s %s)" % (obs[1], cj(obs[2]))
+    elif obs[0] == "cfgerr":
+        sm = split_message(obs[1])
+        o = "PoOther"
+        if sm:
+            out = []
+            all_paths(t, data, [], out)
+            hits = {json.dumps(p) for p in out if render_path(p) == sm[1]}
+            if len(hits) == 1:
+                o = "(PoErr %s %s)" % (sm[0], cpath(json.loads(hits.pop())))
+            elif len(hits) > 1:
+                amb = True
+    else:
+        o = "PoOther"
+    return "(CParseAnn %s %s %s %s)" % (cann(t), cj(data), float_table(data), o), amb
 
 
 # =========================================================================================
@@ -706,6 +1038,12 @@ def conforms(t, o):
         return isinstance(o, dict) and all(isinstance(kk, str) and conforms(t[1], x) for kk, x in o.items())
     if k == "struct":
         return isinstance(o, struct_class(t)) and all(hasattr(o, f[0]) and conforms(f[1], getattr(o, f[0])) for f in t[2])
+    if k == "rawlist":
+        return type(o) is list and all(conforms(["any"], x) for x in o)
+    if k == "rawtuple":
+        return type(o) is tuple and all(conforms(["any"], x) for x in o)
+    if k == "rawdict":
+        return isinstance(o, dict) and conforms(["any"], o)
     return False
 
 
@@ -919,6 +1257,72 @@ def tree_eq(result, tree):
 # =========================================================================================
 # The run
 # =========================================================================================
+LINESEPS = ["\u2028", "\u2029", "\x85", "\x0b", "\x0c", "\x1c", "\x1d", "\x1e"]
+
+
+def file_roundtrip(ck, rng, n):
+    """dump_config_file / load_config_file through a scratch file (oracle only): what is read back
+    is what was written; a second dump to the same file replaces the first completely; a refused
+    dump (non-mapping) leaves the existing file untouched; a file with comments loads to its data."""
+    import os
+    from qmi.core.config import dump_config_file, load_config_file, dump_config_string
+    from qmi.core.exceptions import QMI_ConfigurationException
+    d = ck.scratch_dir()
+    fn = os.path.join(d, "cfg.conf")
+
+    def fail(key, what, case):
+        ck.report("file:" + key, what, dict(case, kind="file"))
+
+    for i in range(n):
+        big = gen_plain(rng, 3, special_floats=True, p_scalar=0.3, width=5)
+        if not isinstance(big, dict):
+            big = {"a": big, "b": [gen_string(rng)] * 3}
+        small = {gen_string(rng): gen_plain(rng, 1)}
+        ck.count("file:roundtrip")
+        ck.note_case(("file", repr(big), repr(small)), True)
+        case = {"first": big, "second": small}
+        try:
+            if os.path.exists(fn) and i % 3 == 0:
+                os.unlink(fn)
+            dump_config_file(big, fn)
+            with open(fn) as f:
+                on_disk = f.read()
+            if on_disk != dump_config_string(big):
+                fail("content", "dump_config_file wrote something else than dump_config_string returns", case)
+            if not tree_eq(load_config_file(fn), to_obj(big)):
+                fail("roundtrip", "load_config_file(dump_config_file(d)) is not d", case)
+            dump_config_file(small, fn)                       # overwrite with a shorter document
+            if not tree_eq(load_config_file(fn), to_obj(small)):
+                fail("overwrite", "a second dump_config_file to the same file does not replace the first", case)
+            before = open(fn).read()
+            try:
+                dump_config_file([1, 2], fn)                    # refused: not a mapping
+                fail("nonmapping", "dump_config_file accepted a non-mapping", case)
+            except QMI_ConfigurationException:
+                pass
+            if open(fn).read() != before:
+                fail("refused-dump-damages-file", "a refused dump_config_file changed the existing file", case)
+            # a hand-written file with comments
+            text = decorate(rng, dump_config_string(big))
+            try:
+                with open(fn, "w") as f:
+                    f.write(text)
+            except UnicodeEncodeError:
+                continue
+            with open(fn, newline="") as f:
+                if f.read() != text:
+                    continue                                    # not representable byte-exact here
+            ck.count("file:with-comments")
+            if not tree_eq(load_config_file(fn), to_obj(big)):
+                fail("comments", "load_config_file of a file with comments does not return its data", dict(case, text=text))
+        except Exception as e:  # noqa
+            fail("exception", "file round trip raised %s: %s" % (type(e).__name__, str(e)[:80]), case)
+    try:
+        os.unlink(fn)
+    except OSError:
+        pass
+
+
 def shipped_types():
     from qmi.core import config_defs
     out = []
@@ -942,8 +1346,10 @@ def run(ck):
     ck.assumptions = [
         "data given to config_struct_from_dict is JSON data (what load_config_string returns): no tuples, "
         "no dataclass instances, string keys",
-        "field types are the documented ones; bare List/Dict/Tuple, `X | None` annotations and unsupported types "
-        "(rejected by _check_config_struct_type) are outside the model",
+        "field types: the documented ones incl. bare List/Dict/Tuple are the accepted grammar (cty); every other "
+        "annotation is modelled as refused by the class check (AOther = unrecognised by both functions); "
+        "`X | Y` is only generated as a direct field annotation (inside typing generics its meaning depends on "
+        "typing's alias cache), one member order per Union member set per run for the same reason",
         "json.loads/json.dumps round trip and float(int) are library behaviour (section hypotheses in Coq)",
     ]
     rng = ck.rng
@@ -958,7 +1364,7 @@ def run(ck):
     # ---------------- junk lines through _strip_comments ----------------------------------
     alpha = ['"', '#', '\\', 'a']
     words = [""]
-    for n in range(1, 7 if quick else 9):
+    for n in range(1, 6 if quick else 9):
         words += ["".join(w) for w in itertools.product(alpha, repeat=n)]
     chunk = 120
     texts = ["\n".join(words[i:i + chunk]) for i in range(0, len(words), chunk)]
@@ -967,6 +1373,13 @@ def run(ck):
         texts.append("".join(rng.choice(['"', '#', '\\', 'a', ' ', '\n', '\r', 'é', '"', '#', "'", '\x0b', '\x85', '\u2028'])
                              for _ in range(rng.randrange(0, 40))) if rng.random() < 0.7 else
                      rng.choice(["\r\n", "\n", "\r"]).join(gen_string(rng) + rng.choice(["", "#", '"#"', '"\\"#"#x', '\\"#']) for _ in range(n)))
+    # explicit bucket: characters that str.splitlines() treats as line ends but the configuration
+    # language does not (only CR and LF end a line / a comment)
+    for sep in LINESEPS:
+        for tmpl in ('{"a": 1} # c%sd "x', '"a%s#b" # c', '# c%s{"a": 1}', 'a%s"b#%s" #x%sy', '"%s', '\\"%s#"'):
+            texts.append(tmpl.replace("%s", sep))
+            ck.count("linesep:junk-line")
+            ck.count("linesep:U+%04X" % ord(sep))
     for text in texts:
         cuts, out = impl_cuts(text)
         ck.count("strip:lines", len(re.split(r"[\r\n]", text)))
@@ -1052,7 +1465,46 @@ def run(ck):
             ck.report("load:" + why.split("(")[0].strip()[:50], why,
                       {"kind": "load", "text": text, "expect": expect, "tree": tree if expect == "ok" else None})
         add(load_case_term(text, cuts, stripped, obs), {"kind": "load", "text": text, "flagged": bool(why)})
+    # explicit bucket: Unicode / control line separators inside comments and inside strings
+    from qmi.core.config import dump_config_string
+    for rep_i in range(3 if quick else 30):
+        for sep in LINESEPS:
+            # (a) inside a comment: everything up to the real line end is comment, '"' and '#' included
+            tree = {"k" + gen_string(rng, nasty=False): gen_plain(rng, 2), "z": [1, "#x"]}
+            lines_ = dump_config_string(tree).split("\n")
+            i = rng.randrange(len(lines_))
+            lines_[i] += " # note" + sep + rng.choice(['"open', "}", "# more", '{"a": 1}', sep + '"'])
+            text = rng.choice(["\n", "\r\n", "\r"]).join(lines_)
+            docs_extra = [("linesep:in-comment", text, tree, "ok")]
+            # (b) inside a string, followed by '#' in the same string: data, kept
+            raw_ok = ord(sep) >= 0x20
+            tree2 = {"s": "a" + sep + "#b", "k" + sep: [sep + "#", 1]}
+            text2 = json.dumps(tree2, ensure_ascii=False, indent=rng.choice([None, 2])) + "  # tail" + sep + "#"
+            text2 = text2.replace("\\u%04x" % ord(sep), sep)      # json.dumps escapes control characters: put them raw
+            if sep == "\x0c":
+                text2 = text2.replace("\\f", sep)
+            docs_extra.append(("linesep:in-string", text2, tree2, "ok" if raw_ok else "valueerror"))
+            for bucket, text, tree, expect in docs_extra:
+                ck.count(bucket)
+                ck.count("linesep:U+%04X" % ord(sep))
+                cuts, stripped = impl_cuts(text)
+                obs = impl_load(text)
+                ck.note_case(("load", text), True)
+                why = None
+                if expect == "ok" and not (obs[0] == "ok" and tree_eq(obs[1], to_obj(tree))):
+                    why = "document with U+%04X %s does not load to its data (%s)" % (
+                        ord(sep), "in a comment" if bucket.endswith("comment") else "in a string", obs[0])
+                elif expect == "valueerror" and obs[0] != "valueerror":
+                    why = "raw control character U+%04X in a string: expected ValueError from json, got %s" % (ord(sep), obs[0])
+                if why:
+                    ck.report("load:linesep " + why.split("(")[0].strip()[14:60], why,
+                              {"kind": "load", "text": text, "expect": expect if expect == "ok" else None,
+                               "tree": tree if expect == "ok" else None})
+                add(load_case_term(text, cuts, stripped, obs), {"kind": "load", "text": text, "flagged": bool(why)})
     ck.sample({"kind": "load", "text": metas[-1]["text"]})
+
+    # ---------------- files: dump_config_file / load_config_file (oracle only) ------------------
+    file_roundtrip(ck, rng, 25 if quick else 300)
 
     # ---------------- typed structures -----------------------------------------------------
     tg = TypeGen(rng)
@@ -1096,6 +1548,78 @@ def run(ck):
             add(term, meta)
     for key in sorted(fails):            # the smallest failing case of each kind is the replay
         ck.report(key, fails[key][1], fails[key][2])
+
+    # ---------------- class check on generated class definitions ----------------------------------
+    from qmi.core.config_struct import config_struct_from_dict
+    from qmi.core.exceptions import QMI_ConfigurationException
+    atypes = []
+    for _ in range(110 if quick else 2500):
+        base = tg.struct(3)
+        n = rng.choice([0, 1, 1, 1, 2])
+        t, injected = inject_unsupported(rng, tg, base, n)
+        atypes.append((t, injected))
+    for t in shipped_types():
+        atypes.append((t, []))
+    for t, injected in atypes:
+        try:
+            cls = struct_class(t)
+        except Exception as e:  # noqa
+            raise RuntimeError("harness could not build class for %r: %r" % (t, e))
+        obs = impl_check(t)
+        ck.count("check:unsupported-%d" % len(injected))
+        for _, kind in injected:
+            ck.count("check:inject-" + kind)
+        ck.count("check:outcome-" + obs[0])
+        ck.note_case(("check", t), bool(injected))
+        why = None
+        if obs[0] == "exc":
+            why = "_check_config_struct_type raised %s (%s)" % (obs[1], obs[2][:60])
+        elif not injected and obs[0] != "ok":
+            why = "class with supported field types only is refused: " + obs[1][:100]
+        elif injected and obs[0] == "ok":
+            why = "class with an unsupported annotation at %r passes the check" % render_cpath(injected[0][0])
+        elif len(injected) == 1:
+            kind, route = injected[0][1], injected[0][0]
+            want = dict(CHECK_MSGS)[kind] + render_cpath(route)
+            if obs[1] != want:
+                why = "refusal should read %r, got %r" % (want, obs[1][:120])
+        if why is None:     # config_struct_from_dict must refuse the class before looking at the data
+            try:
+                config_struct_from_dict({}, cls)
+                got = ("ok",)
+            except QMI_ConfigurationException as e:
+                got = ("cfgerr", str(e))
+            except Exception as e:  # noqa
+                got = ("exc", type(e).__name__)
+            if injected and got != obs:
+                why = "config_struct_from_dict does not refuse the class like the check does: %r" % (got,)
+            elif not injected and got[0] == "cfgerr" and got[1].startswith("Unsupported"):
+                why = "config_struct_from_dict refuses a supported class: " + got[1][:80]
+        if why:
+            ck.report("check:" + re.sub(r"%r|'[^']*'", "", why.split(":")[0])[:50].strip(), why, {"kind": "check", "type": t})
+        add(check_case_term(t, obs), {"kind": "check", "type": t, "flagged": bool(why)})
+        # the parser on the same annotations WITHOUT the check (what the generated constructor does)
+        subjects = [t] + [f[1] for f in t[2][:2]]
+        for st in subjects:
+            for j in range(2):
+                data = gen_data(rng, st)
+                if j == 1 and rng.random() < 0.6:
+                    pos = []
+                    positions(st, data, [], pos)
+                    if pos:
+                        _, _, cont, key = rng.choice(pos)
+                        cont[key] = rng.choice(WRONG)
+                    else:
+                        data = rng.choice(WRONG)
+                pobs = impl_parse_value(st, data)
+                ck.count("parseann:" + ("supported" if not contains_unsupported(st) else "unsupported"))
+                ck.count("parseann:outcome-" + pobs[0])
+                ck.note_case(("parseann", st, data), contains_unsupported(st))
+                term, amb = parse_ann_case_term(st, data, pobs)
+                if amb:
+                    ambiguous += 1
+                    continue
+                add(term, {"kind": "parseann", "type": st, "data": data, "flagged": False})
     ck.coverage["ambiguous_paths_skipped"] = ambiguous
     ck.coverage["impl_and_oracle_s"] = round(time.time() - t_impl, 1)
     ck.sample({k: v for k, v in metas[-1].items()})
@@ -1176,6 +1700,58 @@ def replay(rep):
         print("load(dump) ->", lo[0], repr(lo[1])[:300])
         print("model:", _model_side("(CDump %s (Some %s))" % (cj(to_obj(c["tree"])), cstr(text))))
         return 0 if lo[0] == "ok" and tree_eq(lo[1], to_obj(c["tree"])) else 1
+    if k == "check":
+        t = c["type"]
+        if len(t) > 3:
+            shipped_types()
+        obs = impl_check(t)
+        print("class definition:", t)
+        print("_check_config_struct_type ->", obs)
+        print("model:", _model_side(check_case_term(t, obs)))
+        bad = (obs[0] == "exc") or (contains_unsupported(t) != (obs[0] == "cfgerr"))
+        print("oracle:", "refused iff an unsupported annotation is present: %s" % ("violated" if bad else "ok"))
+        return 1 if bad else 0
+    if k == "parseann":
+        t, data = c["type"], c["data"]
+        obs = impl_parse_value(t, data)
+        print("annotation:", t)
+        print("data:", data)
+        print("_parse_config_value ->", obs[:3])
+        print("model:", _model_side(parse_ann_case_term(t, data, obs)[0]))
+        return 0
+    if k == "file":
+        import common
+        ck = common.Check("C16")
+        try:
+            import random as _r
+            n0 = len(ck.violations)
+            # re-run the file scenario on the stored trees
+            class _One:
+                pass
+            first, second = c["first"], c["second"]
+            import os
+            from qmi.core.config import dump_config_file, load_config_file
+            fn = os.path.join(ck.scratch_dir(), "cfg.conf")
+            ok = True
+            try:
+                dump_config_file(first, fn)
+                r1 = load_config_file(fn)
+                dump_config_file(second, fn)
+                r2 = load_config_file(fn)
+                ok = tree_eq(r1, to_obj(first)) and tree_eq(r2, to_obj(second))
+                print("first read back equal:", tree_eq(r1, to_obj(first)), " second (overwrite) read back equal:", tree_eq(r2, to_obj(second)))
+                if "text" in c:
+                    with open(fn, "w") as f:
+                        f.write(c["text"])
+                    r3 = load_config_file(fn)
+                    print("file with comments read back equal:", tree_eq(r3, to_obj(first)))
+                    ok = ok and tree_eq(r3, to_obj(first))
+            except Exception as e:  # noqa
+                print("raised", type(e).__name__, str(e)[:100])
+                ok = False
+            return 0 if ok else 1
+        finally:
+            ck.cleanup()
     if k == "parse":
         t, data = c["type"], c["data"]
         if len(t) > 3:
